@@ -4,7 +4,7 @@
    cf arbitrary).  A token response t carries: t_rt (the refresh token it hands out),
    t_scope (scope member), t_at_sub (access-token subject), t_aud / t_azp / t_auth
    (audience, client and auth_time of the id_token). *)
-From OIDC Require Import Lib C04_OP C04_Ledger C04_Hist C07_spec C07_Chain C07_proofs C07_spec_proofs.
+From OIDC Require Import Lib C04_OP C04_Ledger C04_Hist C07_spec C07_Chain C07_Wire C07_proofs C07_Wire_proofs C07_spec_proofs.
 
 (* success => the presented token is live in the storage, the caller proves the client
    it belongs to - the client named in the earlier response that handed the token out -,
@@ -107,6 +107,87 @@ Theorem C07_unproven_refused : forall (H : string -> string) (cf : cfg) ops h s,
     is_tokens (e_out e) = false /\ e_post e = e_pre e.
 Proof. exact unproven_refused. Qed.
 Print Assumptions C07_unproven_refused.
+
+(* STRAY PARAMETERS.  P_stray names marks a refresh request that carries, next to what the grant
+   defines, parameters of another grant or of none (code_verifier, code, redirect_uri, username,
+   password, resource ...).  The machine answers it exactly as the same request without them ... *)
+Theorem C07_stray_irrelevant : forall (H : string -> string) (cf : cfg) names r s cr rt scopes,
+  step H cf r s (TokenRefresh (P_stray names) cr rt scopes) = step H cf r s (TokenRefresh P_body cr rt scopes).
+Proof. exact stray_irrelevant. Qed.
+Print Assumptions C07_stray_irrelevant.
+
+(* ... in particular nothing of the kind stands in for the secret: when the presented token belongs
+   to a client that authenticates by a secret (basic / post / a method the library has no name for),
+   a request that names a client but carries no secret - in the header or in the form - and no
+   assertion is refused and changes nothing, whatever else it carries and whatever preceded it *)
+Theorem C07_stray_no_secret_refused : forall (H : string -> string) (cf : cfg) ops h s,
+  exec H cf ops = (h, s) ->
+  forall h1 e h2 names cr n scopes r cl,
+    h = h1 ++ e :: h2 -> e_op e = TokenRefresh (P_stray names) cr (Some n) scopes ->
+    find_rt (e_pre e) n = Some r -> find_client cf (r_client r) = Some cl -> secret_based cl = true ->
+    c_secret cl <> "" -> cr_assert cr = None -> snd (cred_id_sec cr) = "" ->
+    is_tokens (e_out e) = false /\ e_post e = e_pre e.
+Proof. exact stray_no_secret_refused. Qed.
+Print Assumptions C07_stray_no_secret_refused.
+
+(* THE BASIC HEADER ON THE WIRE (RFC 6749 2.3.1).  The cases carry the header texts; the identity
+   they present is their form-decoding (C04_OP.form_unescape: '+' = space, %XY = byte XY).
+   Both encodings a client may use - a space as '+' (plus = true) or as %20 - denote the string
+   that was encoded, for every string: *)
+Theorem C07_wire_roundtrip : forall plus s, form_unescape (form_escape plus s) = Some s.
+Proof. exact wire_roundtrip. Qed.
+Print Assumptions C07_wire_roundtrip.
+
+(* an UNENCODED text denotes itself exactly when it has neither '+' nor '%' in it *)
+Theorem C07_wire_raw_fixed : forall s,
+  form_unescape s = Some s <-> has_char "+"%char s = false /\ has_char "%"%char s = false.
+Proof. exact wire_raw_fixed. Qed.
+Print Assumptions C07_wire_raw_fixed.
+
+(* success of a refresh that authenticates by a Basic header, for a token of a secret-based client:
+   the DECODED header texts are exactly that client's id and secret *)
+Theorem C07_wire_bound : forall (H : string -> string) (cf : cfg) ops h s,
+  exec H cf ops = (h, s) ->
+  forall h1 e h2 pl hi hs fi fs n scopes t r cl,
+    h = h1 ++ e :: h2 ->
+    e_op e = TokenRefresh pl (MkCred (wire_basic hi hs) fi fs None) (Some n) scopes -> e_out e = OTokens t ->
+    find_rt (e_pre e) n = Some r -> find_client cf (r_client r) = Some cl -> secret_based cl = true ->
+    wire_basic hi hs <> None ->
+    form_unescape hi = Some (r_client r) /\ form_unescape hs = Some (c_secret cl).
+Proof. exact wire_bound. Qed.
+Print Assumptions C07_wire_bound.
+
+(* so a secret with a '+' or a '%' in it that is put into the header UNENCODED is another secret:
+   refused, nothing changes - on both routers alike *)
+Theorem C07_raw_secret_refused : forall (H : string -> string) (cf : cfg) ops h s,
+  exec H cf ops = (h, s) ->
+  forall h1 e h2 pl hi n scopes r cl,
+    h = h1 ++ e :: h2 ->
+    find_rt (e_pre e) n = Some r -> find_client cf (r_client r) = Some cl -> secret_based cl = true ->
+    has_char "+"%char (c_secret cl) || has_char "%"%char (c_secret cl) = true ->
+    e_op e = TokenRefresh pl (MkCred (wire_basic hi (c_secret cl)) "" "" None) (Some n) scopes ->
+    is_tokens (e_out e) = false /\ e_post e = e_pre e.
+Proof. exact raw_secret_refused. Qed.
+Print Assumptions C07_raw_secret_refused.
+
+(* THE STORAGE REFUSES THE ROTATION.  TokenRefreshRF is a refresh request during which
+   Storage.CreateAccessAndRefreshTokens fails (the presented token was rotated by a competing
+   request, revoked or expired after the lookup; a transient fault).  "On success the presented
+   token is handed to the storage for rotation and the response carries the storage's new refresh
+   token" - so there is no success: no tokens of any kind, and nothing changes (the presented token
+   is as usable afterwards as it was before) ... *)
+Theorem C07_rotation_refused_no_tokens : forall (H : string -> string) (cf : cfg) r s pl cr rt scopes,
+  exists x, step H cf r s (TokenRefreshRF pl cr rt scopes) = (s, x) /\ is_tokens x = false.
+Proof. exact rotation_refused_no_tokens. Qed.
+Print Assumptions C07_rotation_refused_no_tokens.
+
+(* ... and the answer is server_error where a willing storage would have let the request succeed,
+   else the refusal the request earns anyway (wrong client, scope not granted, unknown token ...) *)
+Theorem C07_rotation_refused_answer : forall (H : string -> string) (cf : cfg) r s pl cr rt scopes s' x,
+  step H cf r s (TokenRefresh pl cr rt scopes) = (s', x) ->
+  step H cf r s (TokenRefreshRF pl cr rt scopes) = (s, if is_tokens x then err r E_server else x).
+Proof. exact rotation_refused_answer. Qed.
+Print Assumptions C07_rotation_refused_answer.
 
 (* a client registered with an auth method the library does not name ("" = unset,
    client_secret_jwt, a case variant of a named value ...: AM_Other) refreshes only with its id
